@@ -98,6 +98,10 @@ class StubEval:
             self.tree = None
             self.events.append(("stub-does-not-parse", self.syntax_error, "module"))
             return
+        if target_module is not None and getattr(target_module, "__package__", None):
+            # relative imports of the text (`from .shapes import Circle` in an applied source) resolve against the target's package
+            self.ns["__package__"] = target_module.__package__
+            self.ns["__name__"] = target_module.__name__
         self._imports()
         if target_module is not None:
             modname = target_module.__name__
